@@ -7,6 +7,7 @@ mod c08;
 mod core;
 mod lc;
 mod lcgen;
+mod rem;
 
 use crate::core::*;
 
@@ -22,6 +23,7 @@ fn prop_by_id(id: &str) -> Option<Box<dyn Prop>> {
         "C05" => Box::new(lc::LcProp(lc::Which::C05)),
         "C06" => Box::new(lc::LcProp(lc::Which::C06)),
         "C07" => Box::new(lc::LcProp(lc::Which::C07)),
+        "C15" => Box::new(rem::C15),
         _ => return None,
     })
 }
